@@ -352,6 +352,12 @@ impl Harness for C16 {
         for n in 2..=64usize {
             jobs.push(Job::new(format!("kfold-plain-n{}", n), json!({"kind": "kfold", "n": n, "shuffle": false})));
         }
+        // beyond the exhaustive range: fold counts around byte / word boundaries and leave-one-out on
+        // larger inputs (every k in the listed set for each n)
+        for n in [255usize, 256, 257, 300, 513] {
+            jobs.push(Job::new(format!("kfold-plain-large-n{}", n), json!({"kind": "kfold-large", "n": n, "shuffle": false})));
+            jobs.push(Job::new(format!("cv-plain-large-n{}", n), json!({"kind": "cv-large", "n": n, "shuffle": false})));
+        }
         for n in 1..=64usize {
             jobs.push(Job::new(format!("split-plain-n{}", n), json!({"kind": "split", "n": n, "shuffle": false})));
         }
@@ -378,9 +384,9 @@ impl Harness for C16 {
             jobs,
             budget_s: if t { 1500 } else { 40 },
             case_deadline_ms: 20_000,
-            floors: vec![("uneven_folds", 100), ("non_identity_permutations", 100), ("split_empty_train", 10)],
+            floors: vec![("uneven_folds", 100), ("non_identity_permutations", 100), ("split_empty_train", 10), ("large_fold_counts", 50)],
             bounds: json!({
-                "kfold_unshuffled": "every 2<=k<=n<=64",
+                "kfold_unshuffled": "every 2<=k<=n<=64; plus n in {255,256,257,300,513} with k in {2,3,7,64,127..129,200,255..258,300,511..513,n}",
                 "split_unshuffled": format!("every 1<=n<=64 x {} test sizes with floor_f32(n*ts)>=1", TEST_SIZES.len()),
                 "shuffled_all_permutations": format!("every Fisher-Yates answer sequence (all n! permutations) for n<={} (kfold: every k; split: every test size), cv n<={}", nmax_all, if t { 7 } else { 5 }),
                 "shuffled_deviation_bounded": format!("n<={}: every schedule with at most {} non-identity Fisher-Yates steps", dev_hi, dev_b),
@@ -405,6 +411,16 @@ impl Harness for C16 {
             "cv" => {
                 let k = 2 + mc::choose(n - 1);
                 cv_case(n, k, shuffle, mode);
+            }
+            "kfold-large" | "cv-large" => {
+                let ks: Vec<usize> = [2usize, 3, 7, 64, 127, 128, 129, 200, 255, 256, 257, 258, 300, 511, 512, 513].iter().cloned().filter(|k| *k <= n).chain(std::iter::once(n)).collect();
+                let k = mc::pick(&ks);
+                if job.kind() == "kfold-large" {
+                    kfold_case(n, k, shuffle, mode);
+                } else {
+                    cv_case(n, k, shuffle, mode);
+                }
+                mc::count("large_fold_counts");
             }
             other => panic!("unknown job kind {}", other),
         }
